@@ -20,12 +20,13 @@ DEVICES = {
     "ET": {"family": "ET", "serial": "9010KETU218W0001", "rated_power": 10000, "refuse": []},
     "ET745": {"family": "ET", "serial": "9010KETT218W0001", "rated_power": 10000, "refuse": []},
     "ETv1": {"family": "ET", "serial": "9010KETU218W0001", "rated_power": 10000, "refuse": ["eco_v2", "peak_shaving"]},
+    "ETunset": {"family": "ET", "serial": "9010KETU218W0001", "rated_power": 10000, "refuse": []},
     "ES": {"family": "ES", "serial": "95048ESU218W0001", "firmware": "2323G"},
     "DT": {"family": "DT", "serial": "9010KDTU218W0001", "refuse": []},
     "DT1": {"family": "DT", "serial": "9010KDSN218W0001", "refuse": []},
 }
 PAIRS = [("ET", "ET"), ("ET", "ET745"), ("ET745", "ET"), ("ET", "ES"), ("DT", "ET"), ("DT", "DT1"), ("ETv1", "ETv1"),
-         ("ES", "ES")]
+         ("ES", "ES"), ("ETunset", "ET")]
 
 # operations: name -> coroutine factory(inv, args)
 OPS = ("runtime", "read_eco", "read_scalar", "write_scalar", "write_eco", "eco_charge", "read_sensor")
@@ -110,8 +111,8 @@ class TwoObjects(Harness):
                 return val(f"{who}_start", 0, 255) * 256 + 0
             if addr == 47548:
                 return 23 * 256 + 59
-            if addr == 47549:  # on_off, days: an eco type of the platform (745: -7), all days
-                return (0xF9 if devname == "ET745" else 0xFF) * 256 + 0x7F
+            if addr == 47549:  # on_off, days: an eco type of the platform (745: -7) or "never configured" (0x55), all days
+                return (0xF9 if devname == "ET745" else 0x55 if devname == "ETunset" else 0xFF) * 256 + 0x7F
             if addr == 47550:
                 return (65536 - 300) if devname == "ET745" else (65536 - 30 - k)
             if addr == 47551:
